@@ -216,6 +216,8 @@ def classify_internal(e, script=''):
     """Key for an exception that is not one of the parser's own errors.  The keys of the known defects are
     predicates over the exception class and the INPUT (not over fsic's function names or source lines), so that a
     refactoring of the parser does not turn a known finding into a new one."""
+    if isinstance(e, (RecursionError, MemoryError)):
+        return 'internal:' + type(e).__name__     # a very long / deeply nested statement exhausts the compiler
     tb = traceback.extract_tb(e.__traceback__)
     if any(f.filename == '<string>' for f in tb):
         return 'exec-at-parse-raises'
@@ -255,6 +257,15 @@ def _rejection_key(script):
 # statements Python allows at module level only (the syntax check compiles a verbatim block on its own, the built
 # class puts it inside a method)
 _MODULE_LEVEL_ONLY = re.compile(r'from\s+__future__\s+import|import\s*\*')
+
+
+# statements whose validity depends on the function they end up in (the parameters of `_evaluate`), and nesting
+# that is within the compiler's limits on its own but not two levels deeper (class + method)
+_METHOD_CONTEXT = re.compile(r'\b(global|nonlocal)\b')
+
+
+def _deep(script):
+    return any(len(ln) - len(ln.lstrip(' ')) >= 64 for ln in script.split('\n'))
 
 
 def check(script, violate, dist=None, expect_accept=False, timeout=20, full=False):
@@ -322,6 +333,8 @@ def check(script, violate, dist=None, expect_accept=False, timeout=20, full=Fals
         key = 'build-fails:' + type(e).__name__
         if _MODULE_LEVEL_ONLY.search(script) and type(e).__name__ == 'BuildError':
             key = 'build-fails:module-level-only-statement'
+        elif type(e).__name__ == 'BuildError' and (_METHOD_CONTEXT.search(script) or _deep(script)):
+            key = 'build-fails:method-context'
         violate(key, f'parse_model accepted the script but build_model / instantiation raised {type(e).__name__}: '
                 f'{str(e)[:120]}')
         return 'accepted-build-fails'
